@@ -9,6 +9,7 @@ series truncation error of COS, the discretisation / damping / interpolation err
 characteristic functions themselves, `norm.cdf`.
 -/
 import RpylibModel.Model.Pricers
+import RpylibModel.Proofs.Lemmas.C18Basic
 import RpylibModel.Proofs.Lemmas.C18Shape
 import RpylibModel.Proofs.Lemmas.C18Integrals
 import Mathlib.Tactic.Linarith
@@ -71,9 +72,6 @@ theorem butterfly_eq (c1 c2 c3 : Rat) : butterfly c1 c2 c3 = (c1 - c2) - (c2 - c
 
 /-! ### Black–Scholes closed form -/
 
-theorem rmax_sub_rmax_neg (x : Rat) : rmax 0 x - rmax 0 (-x) = x := by
-  unfold rmax; split <;> split <;> linarith
-
 /-- degenerate branch (σ, spot or T below `eps`): intrinsic values -/
 theorem bs_degenerate_intrinsic (Φ : Rat → Rat) (df fwd K lg sd : Rat) :
     bsCall Φ true df fwd K lg sd = df * rmax 0 (fwd - K) ∧ bsPut Φ true df fwd K lg sd = df * rmax 0 (K - fwd) := by
@@ -81,6 +79,11 @@ theorem bs_degenerate_intrinsic (Φ : Rat → Rat) (df fwd K lg sd : Rat) :
   constructor
   · simp
   · simp only [if_true]; congr 2; ring
+
+/-- degenerate prices are non-negative for `df ≥ 0` -/
+theorem bs_degenerate_nonneg (Φ : Rat → Rat) (flag df fwd K lg sd : Rat) (hdf : 0 ≤ df) :
+    0 ≤ bsCallPut Φ true flag df fwd K lg sd := by
+  unfold bsCallPut; simp only [if_true]; exact mul_nonneg hdf (rmax_nonneg _)
 
 /-- degenerate branch still satisfies parity -/
 theorem bs_degenerate_parity (Φ : Rat → Rat) (df fwd K lg sd : Rat) :
